@@ -98,12 +98,15 @@ CHECKS["C20"] = dict(
     level="model_checking", engine="X",
     technique="CrossHair symbolic execution (z3) of the real EntryPointGenerator.filter_rule_by_unit_info/check_rules with "
               "lazily decoded symbolic rule fields, and of util.check_file_processing_flag_and_extract_lang on symbolic "
-              "file-name strings, against the declarative reading of the rules",
+              "file-name strings, against the declarative reading of the rules; program leg: the real `main.py run` on a "
+              "two-language project under 15 entry rule sets, compared with the same declarative reading",
     text="Kernel-level bounded model checking: for every rule (two rules for the first-match logic) whose fields range "
          "over option tables including 'absent', every listed unit and method description, the set selected by the real "
          "filter code equals 'some rule matches the unit and the method'; the settings file-name filter is decided for "
-         "every symbolic prefix up to the bound. CONFIRMED = slice exhausted. The program-level leg (P3 start set == "
-         "entry_points table) is not part of this check.",
+         "every symbolic prefix up to the bound. CONFIRMED = slice exhausted. Program leg (concrete comparison, labelled so): for 15 rule "
+         "sets (empty, initialiser only, by name, uncalled methods, language, unit name/path substrings, rule without method "
+         "list, overlapping rules, rules spread over several settings files) the semantic_p1/entry_points table equals the "
+         "configured set and the taint report contains exactly the flows of methods reachable from it.",
     note="Trusted: CrossHair/z3, the 25-line declarative reference (reading of args/return_type fixed in evidence), "
          "duck-typed unit scope rows.",
     design="4/C20")
